@@ -560,6 +560,14 @@ class World:
         self.orchestrator.start(wf)
         return wf
 
+    def twin_summary(self) -> dict[str, Any] | None:
+        tid = getattr(self, "twin_id", None)
+        if tid is None:
+            return None
+        wf = self.q("SELECT status FROM pipeline_executions WHERE id=?", tid)
+        st = {r["ref_id"]: r["status"] for r in self.q("SELECT ref_id, status FROM stage_executions WHERE execution_id=? AND parent_stage_id IS NULL", tid)}
+        return {"workflow": wf[0]["status"] if wf else None, "stages": st}
+
     def submit_twin(self, wf: Workflow) -> Workflow:
         """A second LIVE execution in the same database (same or another definition): its messages interleave with
         those of the execution under test; nothing of it may leak into that one (and vice versa)."""
